@@ -96,7 +96,7 @@ func checkC05(c *Ctx) {
 	progs := groupReads(paths, 40)
 	nT, depth := 120, 3
 	if !c.Quick() {
-		nT, depth = 3000, 4
+		nT, depth = 9000, 4
 	}
 	g := genFilterProgram(depth)
 	for i := 0; i < nT; i++ {
@@ -163,7 +163,7 @@ func checkC03(c *Ctx) {
 	maxR := "2"
 	sk := "150"
 	if !c.Quick() {
-		sk = "6"
+		sk = "3"
 	}
 	// one TLC run: the refinement invariant over every RowSet, and (sampled) the RowSets to send to the emulator
 	mc := cfg{Spec: "Spec", Constants: map[string]string{"MaxRanges": maxR, "DumpEdges": "TRUE", "SampleK": sk}, Constraint: "Constr", Invariants: []string{"InvPlan", "InvInvalid"}}
@@ -282,7 +282,7 @@ func checkC03(c *Ctx) {
 		c.Nontrivial(describe(p))
 	}
 	c.exhaustive = false
-	c.Extra("exhaustive_scope", "the model's refinement statement is checked for every RowSet of the universe (406 808 RowSets x 3 stored-key sets); the replay on the real emulator covers a seeded sample of it in the quick tier and one in six in the thorough tier")
+	c.Extra("exhaustive_scope", "the model's refinement statement is checked for every RowSet of the universe (406 808 RowSets x 3 stored-key sets); the replay on the real emulator covers a seeded sample of it in the quick tier and one in three in the thorough tier")
 	c.Extra("engines", allEngines)
 	c.btValidate("C03", allEngines, progs, nil)
 	c.Assume("TLC, the Json community module and the harness's request encoder / chunk decoder are trusted (the raw chunk stream is additionally decoded and checked by the ChunkSM specification on a sample of the reads)")
